@@ -460,3 +460,7 @@ for _m, _extra, _apply in _WRAPPERS:
         _c.ghost_state = ("__WC",)
         TASKS.append(FunctionTask(_c, registry=_WR_REG, label=f"hvsrpy.seismic_recording_3c.SeismicRecording3C.{_m}" + ("[after an identical earlier call]" if _h else ""),
                                   clauses=[f"SeismicRecording3C.{_m} acts on all three components with the same arguments, whatever the metadata says was done before"]))
+
+# the sampling rate the filter is designed for (TimeSeries.fs, contract in contracts/C18.py): exactly 1 / dt, whole number of hertz or not
+import contracts.C18 as _C18
+TASKS += [t for t in _C18.TASKS if getattr(t, "label", "").endswith("TimeSeries.fs")]
